@@ -195,7 +195,9 @@ Definition guard_check (g : guard) (v : pyval) : option exn :=   (* None = accep
       end
   end.
 
-(* the final assignment of Processor.set:  obj[att] = v  if obj is a dict holding att, else setattr(obj, att, v) *)
+(* the final assignment of Processor.set:  obj[att] = v  if obj is a dict holding att; setattr(obj, att, v) if obj is a
+   Mapping (Arguments refuses unknown names itself), if type(obj) has a property att (its setter decides) or if att is
+   an entry of obj.__dict__ holding a plain value (None, str, number, array, list/tuple of those); else AttributeError *)
 Definition assign (t : tree) (att : string) (v : pyval) : res tree :=
   match t with
   | Leaf _ => Raise AttributeError                      (* scalars / None have no settable attributes *)
@@ -218,11 +220,13 @@ Definition assign (t : tree) (att : string) (v : pyval) : res tree :=
           end
       | Some _ => Raise AttributeError                  (* property without setter *)
       | None =>
+          (* no property: only an existing entry of the instance __dict__ that holds a plain value is assigned;
+             an unknown name, a method / class constant, an attribute holding an object -> AttributeError *)
           let open := match k with NObj o => o | _ => true end in
           if open then
             match find is_inst att ms with
-            | Some _ => Ok (Node k (subst is_inst att (fun _ => Leaf v) ms))
-            | None => Ok (Node k (MCons att KInst (Leaf v) ms))   (* a NEW attribute appears *)
+            | Some (_, Leaf _) => Ok (Node k (subst is_inst att (fun _ => Leaf v) ms))
+            | _ => Raise AttributeError
             end
           else Raise AttributeError
       end
@@ -250,14 +254,23 @@ Fixpoint set_at (t : tree) (body : list string) (att : string) (v : pyval) : res
 Definition set (t : tree) (k : list string) (v : pyval) : res tree :=
   match split_last k with None => Raise AttributeError | Some (body, att) => set_at t body att v end.
 
-(* Processor.get = operator.attrgetter(key): plain getattr at every component (a dict's items are NOT attributes) *)
+(* Processor.get: getattr at every component, except that an item of a dict is found first at every component and
+   a declared argument of an Arguments object is found first at the LAST component (as has() and set() do) *)
+Definition item_first (k : nkind) (last : bool) : bool :=
+  match k with NDict => true | NArgs => last | _ => false end.
+
+Definition lookup (first : bool) (k : nkind) (n : string) (ms : mlist) : option (mkind * tree) :=
+  if first then orelse (find is_item n ms) (getattr k n ms) else getattr k n ms.
+
+Definition is_nil {A} (l : list A) : bool := match l with [] => true | _ => false end.
+
 Fixpoint get (t : tree) (k : list string) : res tree :=
   match k with
   | [] => Ok t
   | p :: k' =>
       match t with
       | Leaf _ => Raise AttributeError
-      | Node nk ms => match getattr nk p ms with
+      | Node nk ms => match lookup (item_first nk (is_nil k')) nk p ms with
                       | Some (_, c) => get c k'
                       | None => Raise AttributeError
                       end
@@ -302,6 +315,32 @@ Definition tail_is_setting (t : tree) (att : string) : bool :=
                 end
       end
   end.
+
+(* the key ends on an existing setting that may be assigned: an item of a dict, a declared argument, a property
+   with a setter, an instance attribute holding a value (not an object) *)
+Definition tail_is_target (t : tree) (att : string) : bool :=
+  match t with
+  | Leaf _ => false
+  | Node NDict ms | Node NArgs ms => match find is_item att ms with Some _ => true | None => false end
+  | Node k ms =>
+      match find is_prop att ms with
+      | Some (KProp true _, _) => true
+      | Some _ => false
+      | None => match k with
+                | NObj false => false
+                | _ => match find is_inst att ms with Some (_, Leaf _) => true | _ => false end
+                end
+      end
+  end.
+
+Fixpoint targets_at (t : tree) (body : list string) (att : string) : bool :=
+  match body with
+  | [] => tail_is_target t att
+  | p :: body' => match step t p with SFound _ c => targets_at c body' att | _ => false end
+  end.
+
+Definition targets (t : tree) (k : list string) : bool :=
+  match split_last k with None => false | Some (b, a) => targets_at t b a end.
 
 Fixpoint targets_setting_at (t : tree) (body : list string) (att : string) : bool :=
   match body with
@@ -533,8 +572,7 @@ Definition literal_eval (s : string) : option pyval :=
 (* pyxel.evaluator.eval_entry on a str *)
 Definition eval_entry (s : string) : res pyval :=
   match literal_eval s with
-  | Some VNone => Raise AssertionError          (* `assert isinstance(new_value, str | Number | Sequence)` *)
-  | Some v => Ok v
+  | Some v => Ok v                              (* `assert isinstance(new_value, str | Number | Sequence | None)` *)
   | None =>
       match list_ascii_of_string s with
       | [] => Raise IndexError                  (* value[0] on "" *)
@@ -616,20 +654,20 @@ Definition split_dots (s : string) : list string := split_dots_aux s [].
 
 Definition contains (sub s : string) : bool := match index 0 sub s with Some _ => true | None => false end.
 
-(* key[: key.find(".arguments")]  — find = -1 drops the last character, as Python does *)
-Definition model_prefix (key : string) : string :=
-  match index 0 ".arguments" key with
-  | Some n => substring 0 n key
-  | None => substring 0 (String.length key - 1) key
-  end.
+(* ".".join(key.split(".")[:3]) + ".enabled"  for a key that starts with "pipeline." *)
+Definition model_flag_key (k : list string) : list string := (firstn 3 k ++ ["enabled"])%list.
+
+Definition is_pipeline_key (k : list string) : bool :=      (* key.startswith("pipeline.") *)
+  match k with p :: _ :: _ => String.eqb p "pipeline" | _ => false end.
 
 Definition check_step (t : tree) (key : string) : option exn :=    (* None = accepted *)
-  match has t (split_dots key) with
+  let k := split_dots key in
+  match has t k with
   | Raise e => Some e
   | Ok false => Some KeyError
   | Ok true =>
-      if contains "pipeline." key then
-        match getv t (split_dots (model_prefix key ++ ".enabled")) with
+      if is_pipeline_key k then
+        match getv t (model_flag_key k) with
         | Raise e => Some e
         | Ok v => if truthy v then None else Some ValueError
         end
@@ -659,11 +697,9 @@ Definition targets_argument (t : tree) (k : list string) : bool :=
 Definition spec_step_ok (t : tree) (key : string) : bool :=
   let k := split_dots key in
   if (if targets_setting t k then true else targets_argument t k) then
-      match k with
-      | "pipeline" :: g :: m :: _ :: _ =>
-          match getv t ["pipeline"; g; m; "enabled"] with Ok v => truthy v | _ => false end
-      | _ => true
-      end
+      if is_pipeline_key k       (* pipeline.<group>.<model>.<...>: the model must be enabled *)
+      then match getv t (model_flag_key k) with Ok v => truthy v | _ => false end
+      else true
   else false.
 
 (* ------------------------------------------------------------------------------------ correspondence *)
@@ -878,6 +914,6 @@ Definition render_lit (v : lit) : string :=
   | LWord s => s
   end.
 
-(* the part of the subset for which the round trip is PROVED for all values (see C08_literal_roundtrip_partial) *)
-Definition lit_ok (v : lit) : bool :=
-  match v with LWord s => bare_word s | LBool _ => true | _ => false end.
+(* well-formed literal values: a word must be a bare word (letters and underscores, not True / False / None) *)
+Definition lit_wf (v : lit) : bool :=
+  match v with LWord s => bare_word s | _ => true end.
